@@ -129,6 +129,23 @@ Round 10 additions:
     any(p.parent in parents for p in task.predecessors)`, `if task.estimate`) -> REFUTED; `if task.parent is not None` in front
     of the walk over task.all_parents and `if task.predecessors:` are discharged.
 
+Round 11 additions:
+  * RelEval: accumulator passing - `self.__collect_leaves(p, predecessors)` as a statement, the helper appending to the list it
+    is handed (append / extend / +=, the list handed on to itself at the same position): a recursive helper is verified as the
+    leaf collection by the same induction as the list-returning one, anything else about the list parameter is UNDECIDED;
+    C12.pure: a container write through a parameter is fine when every caller hands in a list it allocated itself;
+  * a calculator without node registry: calc derives the node list from the arc table (start and end node of every arc:
+    loop with two appends / extend / +=, two-generator comprehension, `[l.start ..] + [l.end ..]`, aliases) - read as the node
+    list (_derive_node_list) when only the arc builder and calc make nodes; other reads of the arc table in calc with
+    unregistered nodes are UNDECIDED, no registry and no such read stays REFUTED;
+  * RelEval: `name = [p for p in name if C]` narrows what the list held before; a `not in` test against a local collection drawn
+    from the (all_)successors of the listed tasks themselves (a "transitive reduction" in the wrong direction: the later,
+    binding predecessor is dropped) is a test of the drawn tasks -> C12.inherit REFUTED; the same against all_predecessors
+    stays UNDECIDED; `id(t)` is read as t, `set()` / `list()` as empty;
+  * a pass rewritten as a topological (Kahn) sweep is not modelled (anchors fail -> exit 2), except for one shape-visible defect:
+    readiness counter = number of DISTINCT neighbour nodes, decremented once per link -> C12.passes REFUTED
+    (_sweep_counter_mismatch).
+
 Not decided: exactness of the longest-path result as a number (magnitude of the tolerance - a constant above 1e-3 is
 reported UNDECIDED -, float rounding inside the folds), "never empty when the WBS has a leaf" (follows from the clauses,
 not checked on its own), acyclicity handling (the property quantifies over acyclic WBSs), the end_date != None mode
@@ -567,6 +584,85 @@ def _hoist(ctx):
         prog.normalisation_log = list(getattr(prog, 'normalisation_log', [])) + ['c12: ' + l for l in log]
 
 
+def _sweep_counter_mismatch(ctx):
+    """a pass written as a topological (Kahn) sweep - the rules have no model of it, the calculator stays UNDECIDED - except for
+    one defect that is visible in the shape alone: the readiness counter of a node is initialised with the number of DISTINCT
+    neighbour nodes (`len(set(id(l.start) for l in n.<links>))`) but decremented once per LINK (`for l in node.<links>:
+    W[id(l.end)] -= 1`).  Two links between the same pair of nodes exist whenever a predecessor is collected twice (a link of
+    the task that repeats one declared on an ancestor summary; a predecessor that is also a leaf of a summary predecessor), so
+    the node is released before its other neighbours are done and its time is handed on too early -> REFUTED (C12.passes)."""
+    prog = ctx.prog
+    entry = prog.funcs.get(ENTRY)
+    if entry is None:
+        return
+    ctor = _calculator_ctors(ctx.cg, entry)
+    if len(ctor) != 1 or not ctor[0].targets:
+        return
+    mod = ctor[0].targets[0].module
+
+    def distinct_count(e):
+        """(link list attribute, counted side) for len(set(<l.side | id(l.side)> for l in n.<attr>)) / len({.. for l in n.<attr>})"""
+        m_ = match("len(set($g))", e) or match("len(frozenset($g))", e)
+        g = m_['g'] if m_ else (e.args[0] if match("len($s)", e) and isinstance(e.args[0], ast.SetComp) else None)
+        if not isinstance(g, (ast.GeneratorExp, ast.ListComp, ast.SetComp)) or len(g.generators) != 1 or g.generators[0].ifs:
+            return None
+        gen = g.generators[0]
+        elt = g.elt
+        if isinstance(elt, ast.Call) and isinstance(elt.func, ast.Name) and elt.func.id == 'id' and len(elt.args) == 1:
+            elt = elt.args[0]
+        if isinstance(gen.target, ast.Name) and isinstance(gen.iter, ast.Attribute) and isinstance(elt, ast.Attribute) \
+                and isinstance(elt.value, ast.Name) and elt.value.id == gen.target.id:
+            return gen.iter.attr, elt.attr
+        return None
+
+    for f in prog.all_funcs():
+        if f.module is not mod or not isinstance(f.node, (ast.FunctionDef, ast.AsyncFunctionDef)):
+            continue
+        counters = {}       # table name -> (count expr, link list attr, side)
+        for n in walk_no_nested(f.node):
+            if isinstance(n, ast.Assign) and len(n.targets) == 1:
+                tg, v = n.targets[0], n.value
+                if isinstance(tg, ast.Name) and isinstance(v, ast.DictComp):
+                    dc = distinct_count(v.value)
+                    if dc:
+                        counters[tg.id] = (v.value,) + dc
+                elif isinstance(tg, ast.Subscript) and isinstance(tg.value, ast.Name):
+                    dc = distinct_count(v)
+                    if dc:
+                        counters[tg.value.id] = (v,) + dc
+        if not counters:
+            continue
+        cfg = cfg_of(f)
+        ex = Expander(prog, f, ctx.typer, inline=False)
+        for n in walk_no_nested(f.node):
+            if not (isinstance(n, ast.AugAssign) and isinstance(n.op, ast.Sub) and facts.const_num(n.value) == 1
+                    and isinstance(n.target, ast.Subscript) and isinstance(n.target.value, ast.Name) and n.target.value.id in counters):
+                continue
+            sn = cfg.node_of(n)
+            fors = cfg.enclosing_fors(sn) if sn is not None else []
+            if not fors or not isinstance(fors[-1].target, ast.Name) or not isinstance(fors[-1].iter, ast.Attribute):
+                continue
+            lv = fors[-1].target.id
+            try:
+                key = ex.expand(n.target.slice, sn, stop={lv})
+            except Exception:       # noqa: BLE001
+                key = n.target.slice
+            per_link = any(isinstance(x, ast.Attribute) and isinstance(x.value, ast.Name) and x.value.id == lv for x in ast.walk(key))
+            if not per_link:
+                continue
+            cnt, attr, side = counters[n.target.value.id]
+            o = ctx.ob('passes', 'R8',
+                       "earliest = max over incoming links of earliest(start)+units (0 at sources); latest = min over outgoing "
+                       "links of latest(end)-units (project length at the common sink)", floor=1)
+            o.refute(f, cnt, cnt,
+                     f"topological sweep: the readiness counter `{n.target.value.id}` of a node starts at `{src(cnt)[:90]}`, the number "
+                     f"of DISTINCT `.{side}` nodes of its `.{attr}`, but `{src(n)[:60]}` takes one off for every link of "
+                     f"`{src(fors[-1].iter)}`: two links between the same pair of nodes (a predecessor collected twice - the task's own "
+                     f"link repeats one declared on an ancestor summary) release the node while another of its neighbours is still "
+                     f"waiting, and its time is handed on too early; expected the number of links, `len(n.{attr})`")
+            return
+
+
 # ---------------------------------------------------------------------------------------------------------------------
 def check(ctx):
     ctx.assume("the WBS is acyclic (quantifier of C12); Task.all_parents / predecessors / children are the relations of C01")
@@ -595,6 +691,10 @@ def check(ctx):
             except AnalysisError:
                 R = None
     if R is None:
+        try:
+            _sweep_counter_mismatch(ctx)
+        except Exception:       # noqa: BLE001 - a best-effort look at a shape the rules have no model of
+            pass
         o = ctx.ob('no-float-eq', 'R8', "calculator anchors", floor=1)
         o.fail(str(first_error))
         return
